@@ -805,8 +805,14 @@ config_parse_glob(struct config *cf, struct variable_value *val)
 
 	error = glob(tk->tk_str, GLOB_ERR, NULL, &g);
 	if (error) {
-		if (error == GLOB_NOMATCH)
-			return CONFIG_NOP;
+		if (error == GLOB_NOMATCH) {
+			/*
+			 * Define the variable even if nothing matched, allows
+			 * repeated use of the keyword to be detected.
+			 */
+			variable_value_init(val, LIST);
+			return CONFIG_APPEND;
+		}
 
 		lexer_error(cf->lx, tk->tk_lno, "glob: %s", strerror(errno));
 		return CONFIG_FATAL;
